@@ -255,9 +255,11 @@ DoSendFail(r, h, why) ==
     IF r \notin DOMAIN rq THEN
         /\ bad' = Flag(FALSE, "HARNESS", "sendfail for unknown request", r) /\ UNCHANGED <<rq, conn, out>>
     ELSE
-    \* stream exhaustion: the harness only sees attempts the backend has already taken, requests still on the wire
-    \* and the proxy's own heartbeats also hold stream ids, so half the limit is accepted as evidence
-    LET justified == IF why = "streams" THEN \E b \in DOMAIN conn : conn[b].h = h /\ 2 * Cardinality(Outstanding(b)) >= StreamLimit
+    \* stream exhaustion: a connection has run out of stream ids only if about StreamLimit requests hold one.  The backend
+    \* has not necessarily read them yet (they may still be on the wire), so the evidence is counted at the client side:
+    \* requests of the session submitted and not yet answered (each holds at most one id per connection at a time; the
+    \* proxy's own heartbeats and re-prepares hold a few more)
+    LET justified == IF why = "streams" THEN Cardinality({x \in DOMAIN rq : rq[x].nrep = 0 /\ rq[x].sess = q.sess}) + 16 >= StreamLimit
                      ELSE WasShaky(q, h)
         asNext == q.ph = "exec" /\ TakeIsNext(q, h)
         asSame == q.ph = "exec" /\ TakeIsSame(q, h) /\ ~asNext
